@@ -17,6 +17,12 @@ impl Invert {
 
 impl Pattern for Invert {
     fn matches(&self, tokens: &[Token], source: &[char]) -> usize {
+        // There must be a token to consume: claiming a match of length one on an
+        // empty slice makes callers slice past the end of the chunk.
+        if tokens.is_empty() {
+            return 0;
+        }
+
         if self.inner.matches(tokens, source) != 0 {
             0
         } else {
